@@ -190,10 +190,46 @@ def parse_printed_json(out, prefix):
     return res
 
 
+_BOUNDARY = ('{"ev":"Init"', '{"ev":"Start"', '{"ev":"Conflict"', '{"ev":"Pipe"', '{"ev":"Mut"', '{"ev":"Cli"')
+
+
+def split_shards(shards, max_lines=700):
+    """TLC loads a whole trace into memory (ndJsonDeserialize): large shards are cut into chunks at points where the trace
+    specification's state is reset anyway (a World event that does not continue a behaviour; Init / Start events; any line of
+    the one-event-per-case traces). Returns the chunk files (mismatch line numbers then refer to the chunk)."""
+    out = []
+    for sh in shards:
+        n = sum(1 for _ in open(sh))
+        if n <= max_lines:
+            out.append(sh)
+            continue
+        k = 0
+        cur = None
+        cnt = 0
+        with open(sh) as f:
+            for ln in f:
+                boundary = ln.startswith(_BOUNDARY) or (ln.startswith('{"ev":"World"') and '"chain":false' in ln[:400])
+                if cur is None or (cnt >= max_lines and boundary):
+                    if cur:
+                        cur.close()
+                    k += 1
+                    path = '%s.c%03d.ndjson' % (sh[:-7] if sh.endswith('.ndjson') else sh, k)
+                    cur = open(path, 'w')
+                    out.append(path)
+                    cnt = 0
+                cur.write(ln)
+                cnt += 1
+        if cur:
+            cur.close()
+        os.remove(sh)
+    return out
+
+
 def validate_traces(module, shards, timeout=3000, cfg=None, extra_env=None):
-    """Trace validation: one single-worker TLC process per shard, NCPU at a time.
+    """Trace validation: one single-worker TLC process per (chunk of a) shard, NCPU at a time.
     Returns dict(mismatches=[(shard, dict)], states, lines, outputs)."""
     d = _specdir()
+    shards = split_shards(list(shards))
     procs, results = [], []
     pending = list(shards)
     total_states = 0
@@ -205,7 +241,7 @@ def validate_traces(module, shards, timeout=3000, cfg=None, extra_env=None):
         meta = sub('meta-tr-%s' % hashlib.md5(sh.encode()).hexdigest()[:10])
         out = sh + '.tlcout'
         f = open(out, 'w')
-        e = dict(os.environ, TRACE=sh)
+        e = dict(os.environ, TRACE=sh, JAVA_TOOL_OPTIONS='-Xss512m -Xmx3g')
         e.update(extra_env or {})
         p = subprocess.Popen(['tlc', '-workers', '1', '-metadir', meta, '-config', cfg or (module + '.cfg'), module + '.tla'],
                              cwd=d, env=e, stdout=f, stderr=subprocess.STDOUT)
@@ -245,7 +281,7 @@ def validate_traces(module, shards, timeout=3000, cfg=None, extra_env=None):
         running = still
         if running:
             time.sleep(0.05)
-    return dict(mismatches=mism, states=total_states, lines=total_lines)
+    return dict(mismatches=mism, states=total_states, lines=total_lines, shards=shards)
 
 
 def trace_line(shard, lineno):
